@@ -17,10 +17,13 @@ RULE = ("postconditions on SegmentTensor.contains, PolygonTensor.contains and Tr
         "integer affine images x every cyclic rotation and both directions of the vertex list x every lattice query point of the bounding box + 1 "
         "margin (contains every measure-zero position: on edges, at vertices, on edge extensions, level with a vertex), 3D embeddings in planes of "
         "many normals with queries on and off the plane, single Point and PointCollection APIs, PolygonCollection, segments incl. rays. "
-        "Non-trivial: every judged (polygon, point) pair; distinct by digest.")
+        "Non-trivial: every judged (polygon, point) pair; distinct by digest."
+        " Also: polygons moved by a translation / integer affine map after they have been queried, figures scaled by 2^-5 ... 2^-11, point collections mixing points in the plane of a 3D polygon with points above and below them.")
 SHARDS = (8, 16)
 REQUIRED = ["segment.contains", "polygon.contains", "triangle.contains"]
-ASSUMPTIONS = ["exact judgement needs exactly representable coordinates; float queries are judged only when farther than 1e-6 from the boundary"]
+ASSUMPTIONS = ["exact judgement needs exactly representable coordinates; float queries are judged only when farther than 1e-6 from the boundary",
+               "a 3D polygon whose first three vertices are collinear is rejected by the constructor (the supporting plane is the join of the first three vertices): such vertex cycles are not generated",
+               "in-place edits of a polytope's vertices (documented mutator __setitem__) are not followed by the cached supporting line / plane: not part of the workload"]
 EXHAUSTIVE = {"quick": ["every lattice query point of the bounding box + 1 of each generated polygon"], "thorough": ["every lattice query point of the bounding box + 1 of each generated polygon"]}
 
 
